@@ -17,7 +17,11 @@ fails=0
 run_case() {  # name  file  sed-expression  expectation(ok|coqfail|transfail)
   local name="$1" file="$2" expr="$3" expect="$4"
   local d="$W/$name"; mkdir -p "$d"
-  rm -rf "$d/src"; cp -r /repo/src "$d/src"
+  rm -rf "$d/src" "$d/examples" "$d/fuzz" "$d/tests" "$d/etc"; cp -r /repo/src "$d/src"
+  # the front-end copies are read relative to <src-dir>/..
+  mkdir -p "$d/examples" "$d/fuzz/fuzz_targets" "$d/tests" "$d/etc/correctness/test-parse-golang"
+  cp /repo/examples/simple.rs "$d/examples/"; cp /repo/fuzz/fuzz_targets/parse.rs "$d/fuzz/fuzz_targets/"
+  cp /repo/tests/integration_tests.rs "$d/tests/"; cp /repo/etc/correctness/test-parse-golang/main.rs "$d/etc/correctness/test-parse-golang/"
   if [ -n "$expr" ]; then
     sed -i "$expr" "$d/src/$file"
     if cmp -s "$d/src/$file" "/repo/src/$file"; then echo "[$name] mutation did not apply"; fails=$((fails+1)); return; fi
@@ -57,6 +61,8 @@ run_case mut14     parse.rs      's/fp.exp -= F::INVALID_FP;/fp.exp += F::INVALI
 run_case harm1     lemire.rs     's/\bupperbit\b/top_bit/g; s/\bpower2\b/bin_exp/g'          ok
 run_case harm2     bigint.rs     '/pub fn small_add_from/,/^}/ s/\bindex\b/pos/g'            ok
 run_case harm3     parse.rs      's/\bfraction_count\b/nfrac/g'                              ok
+run_case harm4     slow.rs       's/\bhalfradix_exp\b/half_exp/g; s/\btheor_digits\b/th_digits/g'   ok
+run_case harm5     bigint.rs     's/^    let mut carry = false;$/    let mut carry = false; \/\/ running carry/'   ok
 # restore the scratch tree is not needed: it is removed
 rm -rf "$W"
 if [ $fails -eq 0 ]; then echo "selftest: PASS"; else echo "selftest: $fails FAILURE(S)"; fi
